@@ -25,7 +25,9 @@ func ParseRate(rateArg string) (int, time.Duration, error) {
 		if unitArg == "" {
 			return rate, unit, fmt.Errorf("unable to parse unit %s: missing unit after /", rateArg)
 		}
-		if !isNumeric(unitArg[0:1]) {
+		// a bare unit ("s", "ms") means one of it; a unit that already spells a number, including a
+		// fraction without leading digit (".5s"), is taken as written
+		if !isNumeric(unitArg[0:1]) && unitArg[0:1] != "." {
 			unitArg = "1" + unitArg
 		}
 		unit, err = time.ParseDuration(unitArg)
